@@ -318,7 +318,7 @@ def check_cache_key(ctx, w: World, om: OriginModel, ci: CacheInfo, name: str, wh
     if ci.variant == "dict":
         # the key must be built from the complete content of the argument the value is computed from
         fn = w.model.funcs[ci.func].node
-        dep, _ = value_dependencies(w.model, ci)
+        dep, local_dep = value_dependencies(w.model, ci)
         extra = dep - ci.key_vars
         if extra:
             ctx.bad("C17.2", f"cache {name}: the cached value depends on {sorted(extra)}, which is not part of the key", where,
@@ -339,7 +339,7 @@ def check_cache_key(ctx, w: World, om: OriginModel, ci: CacheInfo, name: str, wh
         used_in_value: Set[str] = set()
         for v in ci.value_exprs:
             pass
-        needed = {d for d in dep if d in unpacked}
+        needed = {d for d in local_dep if d in unpacked}
         missing = needed - comps
         if key_def is None or missing:
             ctx.bad("C17.2", f"cache {name}: key `{core.src(key_def) if key_def is not None else core.src(ci.key_expr)}` omits {sorted(missing) or 'its definition'}", where,
